@@ -89,7 +89,7 @@ def h_argparse(c):
     parser default is keep_original_ports=True; -p defaults to [443]."""
     calls = []
     parser = c.recorder("ArgumentParser", handler=lambda m, a, k: c.namespace() if m == "parse_args" else None)
-    c.model("argparse.ArgumentParser", lambda *a, **k: parser)
+    c.lib_model("argparse.ArgumentParser", lambda *a, **k: parser)
     out = c.call(M + ".arg_parser_init")
     c.ensure("no_raise", out.exc is None, kind="raises")
     adds = {a[0]: k for (m, a, k) in c.calls(parser) if m == "add_argument"}
@@ -169,6 +169,8 @@ def h_guard(c):
                      and (allargs[3] is pm) and c.same_object(allargs[4], keep) and c.same_object(allargs[5], meta))
     else:
         c.ensure("no_session_off_server_ports", len(made) == 0 and len(sessions) == 0)
+    if c.native:
+        del ports[2:]          # the module-level list outlives the call in CPython; restore it for the next replay
 
 
 @harness(["C04", "C10"], "demux.matches_session", functions=[SE + ".matches_session", QS + ".matches_session_dgram"],
